@@ -25,12 +25,12 @@ theorem C17_complete_sound (keep : Bool) (evs : List Ev) (t : Ft) (ht : t ∈ (P
   obtain ⟨h1, h2⟩ := h.doneAnn hc n hn
   exact ⟨h1, by rw [h2, h.payl]⟩
 
-/-- completeness: an announced transfer (`n` packages of `buf` bytes, the last one possibly shorter, announced size
-    0 or the true size) whose packages arrive in order — already accepted numbers may be repeated any number of
+/-- completeness: an announced transfer (`n` packages of `buf` bytes, the last one possibly shorter or empty, announced with
+    its true size) whose packages arrive in order — already accepted numbers may be repeated any number of
     times with any content — is reported complete and its stored data equals the original, byte for byte -/
 theorem C17_inorder_complete (serial size n buf : Nat) (keep : Bool) (pk : List (List Nat)) (evs : List (Nat × List Nat))
     (hn : pk.length = n) (hn0 : 0 < n) (hb : 0 < buf) (hs : SizesOk buf pk)
-    (hsize : size = 0 ∨ size = pk.flatten.length) (ho : InOrder 1 pk evs) :
+    (hsize : size = pk.flatten.length) (ho : InOrder 1 pk evs) :
     let t0 : Ft := { serial, state := .started, fileSize := size, nrPackages := some n, bufferSize := buf, keep := keep }
     (feed t0 evs).state = .complete ∧ ((feed t0 evs).keep = true → (feed t0 evs).data = pk.flatten) := by
   intro t0
@@ -39,9 +39,7 @@ theorem C17_inorder_complete (serial size n buf : Nat) (keep : Bool) (pk : List 
            hdata := fun _ => by simp [t0], running := ?_, finished := ?_ }
   · intro _
     refine ⟨rfl, rfl, ?_⟩
-    rcases hsize with h | h
-    · left; exact h
-    · right; show size = 0 + pk.flatten.length; omega
+    show size = 0 + pk.flatten.length; omega
   · intro h; subst h; simp at hn; omega
 
 /-! ## automatic saving -/
